@@ -622,6 +622,7 @@ Ltac cong_struct :=
   | apply if_ext
   | apply bind_ext; [| intro]
   | progress cbv zeta
+  | rewrite !bind_ret_r
   | match goal with |- (let '(_, _) := ?p in _) = _ => destruct p end
   | match goal with |- match ?x with _ => _ end = match ?x with _ => _ end => destruct x end ].
 
